@@ -133,6 +133,31 @@ fn near_misses(pos: &Pos, legal: &[Mv], prev: Option<&Pos>) -> Vec<String> {
     out.into_iter().collect()
 }
 
+/// Every exact label must be accepted and play its move (used for clock variants).
+fn c14_labels_only(pos: &Pos, st: &mut Stats) -> TestResult {
+    let legal = pos.legal_moves();
+    for m in &legal {
+        let label = notation::san(pos, m, &legal);
+        let mut g2 = Game::from_board(to_board(pos), 1);
+        st.count("exact_labels", 1);
+        match g2.apply_chess_move_from_raw_algebraic_notation(label.clone()) {
+            Err(e) => {
+                return Err(fail_pos(
+                    format!("the standard label {:?} of the legal move {} was rejected: {:?}", label, mv_text(m), e),
+                    pos,
+                ))
+            }
+            Ok(em) => {
+                let got = mv_of(&em);
+                if got != *m {
+                    return Err(fail_pos(format!("label {:?} played {} instead of {}", label, mv_text(&got), mv_text(m)), pos));
+                }
+            }
+        }
+    }
+    Ok(())
+}
+
 fn c14_position(pos: &Pos, prev: Option<&Pos>, st: &mut Stats) -> TestResult {
     let legal = pos.legal_moves();
     let mut labels: Vec<&'static str> = Vec::new();
@@ -302,6 +327,7 @@ impl Prop for C14Typed {
                 2 => gen::ambiguity_theme().prop_map(|r| gen::build(&r).fen()),
                 1 => gen::castle_theme().prop_map(|r| gen::build(&r).fen()),
                 1 => gen::ep_theme().prop_map(|r| gen::build(&r).fen()),
+                1 => gen::terminal_biased(),
             ],
             // mostly at or near the constructed position, sometimes deep into a game
             prop_oneof![
@@ -343,6 +369,15 @@ impl Prop for C14Typed {
             return Err(fail_pos("game driven by coordinate pairs diverged from the reference".to_string(), last));
         }
         let prev = if ps.len() >= 2 { Some(&ps[ps.len() - 2]) } else { None };
+        // what is accepted must not depend on the clocks: one sampled position in six is also
+        // examined with the half-move clock at 99 (supplied board)
+        if last.fingerprint() % 6 == 0 && !last.legal_moves().is_empty() {
+            let mut late = last.clone();
+            late.half = 99;
+            st.label("clock-99");
+            let mut scratch = Stats::default();
+            c14_labels_only(&late, &mut scratch)?;
+        }
         c14_position(last, prev, st)
     }
 }
